@@ -662,11 +662,19 @@ def step (d : DState) (l : Line) : DState × List Verdict :=
     let unexplained := dirtyP.filter fun p =>
       match d.iOcc.find? (fun t => t.1 == p.1 && t.2.1 == p.2) with
       | some t => (getA t.2.2 d.taint) != some "sync_flag_race"    -- a steered race is reported by the read that follows
-      | none => false                                               -- a free slot holds nobody's data
+      | none => true     -- a free slot: nobody's data, but still a write the Sync should have covered
     let sm : List Verdict := if res == "ok" && !unexplained.isEmpty then
         [mono "sync_durable" s!"Sync returned, not fsynced: {unexplained.map fun p => s!"{p.1}:{p.2}"}"] else []
+    -- which fsyncs this Sync made (in order) and which one failed, as seen by the data file wrappers
+    let oks := (getNatList o "synced").getD []
+    let failed := ((getNatList o "failed").getD []).head?
+    if failed.isSome || res != "ok" then
+      let (d, r) := stepM d (.syncPartial oks failed)
+      conclude d l (if sm.isEmpty then resVerdict "meta/res" r res else sm) (lostMonitor d false)
+    else
     let (d, _) := stepM d .sync
     conclude { d with acked := d.acked.map fun (r, _) => (r, true) } l (if sm.isEmpty then cmp "meta/res" "ok" (implRes res) else sm) (lostMonitor d false)
+  | "syncfail" => (d, [])     -- the harness arms / disarms an fsync failure of a volume's data file
   | "syncrace" =>
     -- RPC S calls Sync(); RPC B's upload into volume v lands after S's fsync of v returned (see the harness)
     match getNat a "v", getNat a "r", getStrList o "kinds", (getStrList o "locs").bind (·.mapM parseLoc), getNat o "buf" with
